@@ -1,0 +1,40 @@
+//! verification hooks, compiled only with `--cfg probminhash_verif`.
+//! A public wrapper around the crate-private max value tracker.
+
+use crate::maxvaluetrack::{MaxValue, MaxValueTracker};
+
+pub struct VerifTracker<V> {
+    m: usize,
+    inner: MaxValueTracker<V>,
+}
+
+impl<V> VerifTracker<V>
+where
+    V: MaxValue + PartialOrd + Copy + std::fmt::Debug,
+{
+    pub fn new(m: usize) -> Self {
+        VerifTracker {
+            m,
+            inner: MaxValueTracker::new(m),
+        }
+    }
+    pub fn update(&mut self, k: usize, value: V) {
+        self.inner.update(k, value)
+    }
+    pub fn get_max_value(&self) -> V {
+        self.inner.get_max_value()
+    }
+    pub fn get_value(&self, slot: usize) -> V {
+        self.inner.get_value(slot)
+    }
+    pub fn is_update_possible(&self, value: V) -> bool {
+        self.inner.is_update_possible(value)
+    }
+    pub fn reset(&mut self) {
+        self.inner.reset()
+    }
+    /// all 2m-1 nodes of the implicit tree
+    pub fn nodes(&self) -> Vec<V> {
+        (0..(2 * self.m - 1)).map(|i| self.inner.get_value(i)).collect()
+    }
+}
